@@ -48,9 +48,9 @@ TEXT = {
   "design_ref": "DESIGN.md 5 (C04), Appendix E", "note": NODE_NOTE,
   "technique": 'Coq invariant proof on abstract protocol + node rules + differential correspondence + ledger monitor',
  }, "C07": {
-  "level": 'Machine-checked proofs (Coq, no axioms) of the node-level client rules: definitive rejections change nothing, accepted updates get consecutive positions in batch order, release is a committed prefix of the queue, update replies are the FSM result at the assigned position, end of leadership answers every queued task ambiguously. PARTIAL: exactly-once/real-time order across leaders rests on C02/C03. Tie: per-event differential execution including every task reply.',
+  "level": 'Machine-checked proofs (Coq, no axioms) of the node-level client rules: definitive rejections change nothing, accepted updates get consecutive positions in batch order, release is a committed prefix of the queue, update replies are the FSM result at the assigned position, end of leadership answers every queued task ambiguously. PARTIAL: exactly-once/real-time order across leaders rests on C02/C03. Tie: per-event differential execution including every task reply. Cluster level (Props/C07_abs.v, every run of the abstract protocol Abs/CfgRaft.v with membership changes, crashes, snapshot installation and truncated requests): an update submitted once occurs at most once in any log, at one index and term across all logs, and never if not submitted; with C02/C03 (stays once committed, state machines agree) that is exactly-once for completed and at-most-once for ambiguously failed updates. Histories of the real nodes are checked by Abs/CfgExec.v to be runs of that protocol.',
   "design_ref": "DESIGN.md 5 (C07)", "note": NODE_NOTE,
-  "technique": 'Coq proofs of queue/reply rules + differential correspondence on task replies',
+  "technique": 'Coq proofs of queue/reply rules + Coq proof of at-most-once placement over runs of the abstract protocol + differential correspondence on task replies',
  }, "C09": {
   "level": "Machine-checked proofs (Coq, no axioms) of contiguous apply, snapshot <= commit, compaction only of a snapshotted prefix, retention of what replications still read, fresh views after compaction, entries-or-snapshot for lagging followers, consistent reset on installation. PARTIAL: memory-mapping lifetime under real concurrency is outside the model; the scenario corpus (compaction at a follower's match boundary, a follower that compacts and then leads, installation over a conflicting suffix) and the live driver exercise it. Cluster level: the abstract protocol (Abs/Raft.v) has a snapshot-installation step (the follower's log is replaced by a committed prefix, or kept when it already extends it; compaction is invisible) and leader completeness, state-machine safety, log matching and durability are proved with it; observed whole-cluster histories with snapshots are checked by the proved-sound Abs/Exec.v to be runs of it (Props/AbsTie.v).",
   "design_ref": "DESIGN.md 5 (C09)", "note": NODE_NOTE,
